@@ -1,5 +1,6 @@
 import CwMt.Proofs.EngineB
 import CwMt.Proofs.EngineTx
+import CwMt.Proofs.Rules
 /-
   C13 — Malformed contract responses are rejected before any effect is kept.
 -/
@@ -89,5 +90,13 @@ theorem imperative_malformed_dropped_by_cache (cfg : Config E) (d : Dirt E) (blk
     transactionalI ch (callContractI cfg d blk ch addr en tr) =
       (.err, ch, tr ++ [⟨addr, en, contractEnv blk addr, note⟩]) :=
   EngineTx.malformed_dropped_by_cache cfg d blk ch addr en tr cd code resp own' note hc hcode hrun hbad
+
+/-! ### tie T: the validation steps of the current sources (re-read on every run by checklib/tr_rules.py) -/
+
+/-- `verify_attributes` trims key (and value, for the message only), bails on an empty and on a `_`-prefixed trimmed key;
+`verify_response` applies it to the response's attributes and to every event's attributes and bails on a trimmed event
+type of fewer than two bytes — the steps, in this order, that `attrOk` / `eventOk` / `responseOk` transcribe. -/
+theorem validation_steps_as_modelled : Gen.Rules.verifySteps = expectedVerifySteps :=
+  Rules.verify_steps_as_modelled
 
 end CwMt.C13
